@@ -71,8 +71,20 @@ thread_local! {
     static GRAVEYARD: RefCell<Vec<(*mut u8, Layout)>> = const { RefCell::new(Vec::new()) };
 }
 
+static QUARANTINE_OFF: std::sync::atomic::AtomicBool = std::sync::atomic::AtomicBool::new(false);
+
+/// Fuzzing under AddressSanitizer wants dropped futures to be freed at once, so that any access
+/// to a dangling wait node is reported by the sanitizer.
+pub fn set_quarantine(on: bool) {
+    QUARANTINE_OFF.store(!on, std::sync::atomic::Ordering::Relaxed);
+}
+
 pub fn bury(ptr: *mut u8, layout: Layout) {
     if layout.size() == 0 {
+        return;
+    }
+    if QUARANTINE_OFF.load(std::sync::atomic::Ordering::Relaxed) {
+        unsafe { System.dealloc(ptr, layout) };
         return;
     }
     GRAVEYARD.with(|g| g.borrow_mut().push((ptr, layout)));
